@@ -41,11 +41,19 @@ def isEmptyBlob (pre : CVol) (id : Nat) : Bool :=
   | some e => e.size == 0
   | none => false
 
+/-- the commit discards the compaction (makeupDiff fails on an .idx that was empty when the copy
+    started) and loads the old files again -/
+def discarded (pre : CVol) : Bool :=
+  match pre.snap with
+  | some sn => sn.idxLen == 0 && pre.ilog.length != 0
+  | none => false
+
 /-- Why did a readable blob disappear at the commit?  One class per call site / cause; a cause that
     is not one of the recorded defects gets the generic class (⇒ VIOLATION). -/
 def dropClass (pre post : CVol) (alg : Nat) (nowSec : Nat) (id : Nat) : String :=
   if isEmptyBlob pre id then
-    (if (lastFor (suffixOf pre) id).isSome then "makeupDiff/empty-blob-treated-as-delete"
+    (if discarded pre then "read/committed-empty-blob-lost-after-reload"
+     else if (lastFor (suffixOf pre) id).isSome then "makeupDiff/empty-blob-treated-as-delete"
      else if alg = 1 then "VisitNeedle/empty-blob-dropped"
      else "read/committed-empty-blob-lost-after-reload")
   else if ttlDropped pre nowSec id then
